@@ -121,12 +121,15 @@ def normalise_item(attrs, raw_text):
         loops = 0
     elif kind == "fn":
         text = X.drop_attrs_and_docs(raw_text, log=log)
+        if attrs.get("body") != "opaque":
+            text = X.prepass(text, opaque=json.loads(attrs["opaque"]) if attrs.get("opaque") else None, log=log)
         text, loops = X.normalise_fn(text, log=log, signature_only=(attrs.get("body") == "opaque"))
     elif kind == "const":
         text = X.drop_attrs_and_docs(raw_text, log=log)
         loops = 0
     elif kind == "region":
         text = X.drop_attrs_and_docs(raw_text, log=log)
+        text = X.prepass(text, opaque=json.loads(attrs["opaque"]) if attrs.get("opaque") else None, log=log)
         text, loops = X.normalise_region(text, log=log)
         log.append({"rule": "R1", "note": "statement region of %s wrapped in a synthetic fn by add-only annotation lines; free variables become parameters, mutated ones are returned" % attrs.get("in")})
     else:
@@ -374,6 +377,9 @@ def identity_check(gen):
         if conds:
             # the wrapper condition was denormalised too (it may contain nothing to denormalise)
             back = X.invert_n2(back, conds)
+        pre = [x for x in it["rules_applied"] if x.get("rule") in ("O1", "N4", "N2b")]
+        if pre:
+            back = X.invert_prepass(back, pre)
         want = X.token_texts(it["raw_text"])
         if back != want:
             # first difference, for the report
